@@ -564,6 +564,31 @@ func c18Sdf(c *fw.Ctx) {
 			body = append(body, []byte(c18RandStr(r, r.Intn(200)))...)
 		}
 		with := append(append([]byte(nil), sdf...), body...)
+		// the same prefix in its long-string encoding (marker 0x0c, 32-bit length): present is present,
+		// stripping removes exactly the prefix, ensuring leaves the bytes alone
+		lv := ref.AmfStr("@setDataFrame")
+		lv.ForceLong = true
+		withLong := append(ref.AmfEncode(nil, lv), body...)
+		if rep%4 == 0 {
+			c.Describe("sdf long-form input % x", withLong[:min(len(withLong), 48)])
+			c18Guard(c, "MetadataEnsure", withLong, func() {
+				w, err1 := rtmp.MetadataEnsureWithSdf(withLong)
+				wo, err2 := rtmp.MetadataEnsureWithoutSdf(withLong)
+				c.Eval(2)
+				if err1 != nil || err2 != nil {
+					// a reader that does not take the long form at all answers with an error: recorded
+					c.Count("sdf_long_form_refused", 1)
+					return
+				}
+				if !bytes.Equal(w, withLong) && !bytes.Equal(w, with) {
+					c.Violate("sdf/ensure-with", fmt.Sprintf("EnsureWithSdf on a long-form prefix: got %d bytes, input %d | first string %q", len(w), len(withLong), first), nil)
+				}
+				if !bytes.Equal(wo, body) && !bytes.Equal(wo, withLong) {
+					c.Violate("sdf/ensure-without", fmt.Sprintf("EnsureWithoutSdf on a long-form prefix: got %d bytes, want the %d bytes behind the prefix (or the input untouched) | first string %q", len(wo), len(body), first), nil)
+				}
+			})
+			c.Cell("sdf/long-form-prefix")
+		}
 		for _, in := range [][]byte{body, with} {
 			c.Describe("sdf input % x", in[:min(len(in), 48)])
 			c18Guard(c, "MetadataEnsure", in, func() {
